@@ -135,17 +135,24 @@ theorem snapAt_all' (P : Snap K → Prop) (h0 : P Snap.empty) (cs : List (Commit
       exact snapsOf_all' P h0 cs hplay r (List.mem_of_getElem? hg) snap h
     · cases h
 
-def actBelow (n : Nat) : Action K → Prop
-  | .add o => o.id < n
+/-- what the invariant says about a data object mentioned in a commit: its id is below the id
+    counter, and its `count` is the number of values of its file (if the file still exists) -/
+def ObjOk (n : Nat) (files : List (Nat × List V)) (o : Obj K) : Prop :=
+  o.id < n ∧ ∀ p, fileOf files o.id = some p → o.count = p.length
+
+def actOk (n : Nat) (files : List (Nat × List V)) : Action K → Prop
+  | .add o => ObjOk n files o
   | .addVec v => v < n
   | _ => True
 
-def ActsBelow (n : Nat) (acts : List (Action K)) : Prop := ∀ a ∈ acts, actBelow n a
+def ActsOk (n : Nat) (files : List (Nat × List V)) (acts : List (Action K)) : Prop :=
+  ∀ a ∈ acts, actOk n files a
 
-def Below (n : Nat) (s : Snap K) : Prop := (∀ o ∈ s.objs, o.id < n) ∧ (∀ v ∈ s.vecs, v < n)
+def SnapOk (n : Nat) (files : List (Nat × List V)) (s : Snap K) : Prop :=
+  (∀ o ∈ s.objs, ObjOk n files o) ∧ (∀ v ∈ s.vecs, v < n)
 
-theorem playAction_below (n : Nat) (s s' : Snap K) (a : Action K) (h : playAction s a = .ok s')
-    (hb : Below n s) (ha : actBelow n a) : Below n s' := by
+theorem playAction_ok (n : Nat) (files : List (Nat × List V)) (s s' : Snap K) (a : Action K)
+    (h : playAction s a = .ok s') (hb : SnapOk n files s) (ha : actOk n files a) : SnapOk n files s' := by
   cases a with
   | add o =>
     rw [(addObj_ok s s' o h).2]
@@ -176,8 +183,8 @@ theorem playAction_below (n : Nat) (s s' : Snap K) (a : Action K) (h : playActio
       exact ⟨hb.1, fun v' hv' => hb.2 v' (List.mem_filter.mp hv').1⟩
     · cases h
 
-theorem play_below (n : Nat) (s s' : Snap K) (as : List (Action K)) (h : play s as = .ok s')
-    (hb : Below n s) (ha : ActsBelow n as) : Below n s' := by
+theorem play_ok (n : Nat) (files : List (Nat × List V)) (s s' : Snap K) (as : List (Action K))
+    (h : play s as = .ok s') (hb : SnapOk n files s) (ha : ActsOk n files as) : SnapOk n files s' := by
   induction as generalizing s with
   | nil => simp only [play, Except.ok.injEq] at h; subst h; exact hb
   | cons a as ih =>
@@ -186,51 +193,91 @@ theorem play_below (n : Nat) (s s' : Snap K) (as : List (Action K)) (h : play s 
     | error e => simp [hpa] at h
     | ok s1 =>
       simp only [hpa] at h
-      exact ih s1 h (playAction_below n s s1 a hpa hb (ha a (by simp))) (fun a' ha' => ha a' (by simp [ha']))
+      exact ih s1 h (playAction_ok n files s s1 a hpa hb (ha a (by simp))) (fun a' ha' => ha a' (by simp [ha']))
 
-/-- freshness invariant of the pool state: every data object file and every id mentioned in
-    an `Add` / `AddVector` action is below the id counter (KSUIDs are never reused) -/
+/-- **invariant of the pool state**: every data object file is below the id counter (KSUIDs are
+    never reused) and every `Add` / `AddVector` action of every commit mentions an id below the
+    counter and an object whose `count` is the length of its file -/
 structure Good (s : State K V) : Prop where
   files : ∀ f ∈ s.files, f.1 < s.nextObj
-  acts : ∀ c ∈ s.commits, ActsBelow s.nextObj c.acts
+  acts : ∀ c ∈ s.commits, ActsOk s.nextObj s.files c.acts
 
 theorem Good.init : Good ({} : State K V) := ⟨by simp, by simp⟩
 
 theorem Good.snap (s : State K V) (g : Good s) (c : Nat) (snap : Snap K) (h : snapAt s.commits c = .ok snap) :
-    Below s.nextObj snap :=
-  snapAt_all' (Below s.nextObj) ⟨by simp [Snap.empty], by simp [Snap.empty]⟩ s.commits
-    (fun c hc st st' hp hb => play_below _ st st' c.acts hp hb (g.acts c hc)) c snap h
+    SnapOk s.nextObj s.files snap :=
+  snapAt_all' (SnapOk s.nextObj s.files) ⟨by simp [Snap.empty], by simp [Snap.empty]⟩ s.commits
+    (fun c hc st st' hp hb => play_ok _ _ st st' c.acts hp hb (g.acts c hc)) c snap h
 
-theorem actsBelow_mono (n m : Nat) (h : n ≤ m) (acts : List (Action K)) (ha : ActsBelow n acts) : ActsBelow m acts := by
-  intro a hm
-  have := ha a hm
-  cases a <;> simp only [actBelow] at * <;> omega
+theorem Good.snap_lt (s : State K V) (g : Good s) (c : Nat) (snap : Snap K) (h : snapAt s.commits c = .ok snap) :
+    (∀ o ∈ snap.objs, o.id < s.nextObj) ∧ (∀ v ∈ snap.vecs, v < s.nextObj) :=
+  ⟨fun o ho => ((Good.snap s g c snap h).1 o ho).1, (Good.snap s g c snap h).2⟩
 
+/-- the file store grew by entries with fresh ids (or shrank: `sub`) -/
+structure FilesExt (n : Nat) (files files' : List (Nat × List V)) : Prop where
+  keep : ∀ id, id < n → ∀ p, fileOf files' id = some p → fileOf files id = some p
+
+theorem FilesExt.refl (n : Nat) (files : List (Nat × List V)) : FilesExt n files files := ⟨fun _ _ _ h => h⟩
+
+theorem FilesExt.append (n : Nat) (files e : List (Nat × List V)) (he : ∀ f ∈ e, n ≤ f.1) :
+    FilesExt n files (files ++ e) := by
+  refine ⟨?_⟩
+  intro id hid p hp
+  rw [fileOf_append_none] at hp
+  · exact hp
+  · intro f hf; have := he f hf; omega
+
+theorem objOk_ext (n n' : Nat) (files files' : List (Nat × List V)) (hn : n ≤ n')
+    (hx : FilesExt n files files') (o : Obj K) (h : ObjOk n files o) : ObjOk n' files' o :=
+  ⟨by have := h.1; omega, fun p hp => h.2 p (hx.keep o.id h.1 p hp)⟩
+
+theorem actsOk_ext (n n' : Nat) (files files' : List (Nat × List V)) (hn : n ≤ n')
+    (hx : FilesExt n files files') (acts : List (Action K)) (h : ActsOk n files acts) : ActsOk n' files' acts := by
+  intro a ha
+  have := h a ha
+  cases a with
+  | add o => exact objOk_ext n n' files files' hn hx o this
+  | addVec v => simp only [actOk] at *; omega
+  | del x => trivial
+  | delVec x => trivial
+
+/-- committing on a state whose stores extend `s` -/
 theorem Good.commit (s s1 : State K V) (g : Good s) (b t : Nat) (acts : List (Action K))
     (hc : s1.commits = s.commits) (hn : s.nextObj ≤ s1.nextObj) (hf : ∀ f ∈ s1.files, f.1 < s1.nextObj)
-    (ha : ActsBelow s1.nextObj acts) : Good (s1.commit b t acts) := by
+    (hx : FilesExt s.nextObj s.files s1.files)
+    (ha : ActsOk s1.nextObj s1.files acts) : Good (s1.commit b t acts) := by
   refine ⟨by rw [commit_files, commit_nextObj]; exact hf, ?_⟩
   intro c hcm
   rw [commit_commits, hc] at hcm
-  rw [commit_nextObj]
+  rw [commit_nextObj, commit_files]
   simp only [List.mem_append, List.mem_singleton] at hcm
   rcases hcm with h | h
-  · exact actsBelow_mono _ _ hn _ (g.acts c h)
+  · exact actsOk_ext _ _ _ _ hn hx _ (g.acts c h)
   · subst h; exact ha
-end Zed.Lake
 
-namespace Zed.Lake
-variable {K V : Type} [DecidableEq V]
+theorem Good.commit_self (s : State K V) (g : Good s) (b t : Nat) (acts : List (Action K))
+    (ha : ActsOk s.nextObj s.files acts) : Good (s.commit b t acts) :=
+  Good.commit s s g b t acts rfl (Nat.le_refl _) g.files (FilesExt.refl _ _) ha
 
-theorem written_good (cfg : Cfg K V) (s s1 : State K V) (objs : List (Obj K)) (parts : List (List V))
-    (g : Good s) (w : Written cfg s s1 objs parts) : ∀ f ∈ s1.files, f.1 < s1.nextObj := by
+variable [DecidableEq V]
+
+omit [DecidableEq V] in
+theorem written_files (cfg : Cfg K V) (s s1 : State K V) (objs : List (Obj K)) (parts : List (List V))
+    (g : Good s) (w : Written cfg s s1 objs parts) :
+    (∀ f ∈ s1.files, f.1 < s1.nextObj) ∧ FilesExt s.nextObj s.files s1.files := by
   obtain ⟨e, he, hee⟩ := w.ext
+  refine ⟨?_, by rw [he]; exact FilesExt.append _ _ _ (fun f hf => (hee f hf).1)⟩
   intro f hf
   rw [he] at hf
   simp only [List.mem_append] at hf
   rcases hf with h | h
   · have := g.files f h; have := w.next; omega
   · exact (hee f h).2
+
+omit [DecidableEq V] in
+theorem written_objOk (cfg : Cfg K V) (s s1 : State K V) (objs : List (Obj K)) (parts : List (List V))
+    (w : Written cfg s s1 objs parts) : ∀ o ∈ objs, ObjOk s1.nextObj s1.files o :=
+  fun o ho => ⟨(w.ids o ho).2, w.counts o ho⟩
 
 theorem load_good (cfg : Cfg K V) (s s' : State K V) (b : Nat) (vals : List V) (parts : List (List V))
     (g : Good s) (h : load cfg s b vals parts = .ok s') : Good s' := by
@@ -249,18 +296,19 @@ theorem load_good (cfg : Cfg K V) (s s' : State K V) (b : Nat) (vals : List V) (
           cases h
           have hc1 : s1.commits = s.commits := by
             have := writeObjs_commits cfg s parts; rw [hw] at this; exact this
-          apply Good.commit s s1 g _ _ _ hc1 w.next (written_good cfg s s1 objs parts g w)
+          obtain ⟨hf, hx⟩ := written_files cfg s s1 objs parts g w
+          apply Good.commit s s1 g _ _ _ hc1 w.next hf hx
           intro a ha
           obtain ⟨o, ho, hoa⟩ := List.mem_map.mp ha
           subst hoa
-          exact (w.ids o ho).2
+          exact written_objOk cfg s s1 objs parts w o ho
 
 omit [DecidableEq V] in
 theorem delete_good (s s' : State K V) (b : Nat) (ids : List Nat) (g : Good s)
     (h : delete s b ids = .ok s') : Good s' := by
   unfold delete at h
   opsplit h
-  apply Good.commit s s g _ _ _ rfl (Nat.le_refl _) g.files
+  apply Good.commit_self s g
   intro a ha
   obtain ⟨i, _, hia⟩ := List.mem_map.mp ha
   subst hia; trivial
@@ -300,7 +348,7 @@ theorem compact_good (cfg : Cfg K V) (s s' : State K V) (b : Nat) (ids : List Na
                     cases h
                     have e1 := addAll_spec _ _ _ hp1
                     have e2 := addVecAll_spec _ _ _ hp2
-                    have hb := (Good.snap s g _ snap hs)
+                    have hb := (Good.snap_lt s g _ snap hs)
                     have e3 := delAll_spec p2 p3 _ (by
                       intro id hid
                       rw [e2, e1]
@@ -314,14 +362,15 @@ theorem compact_good (cfg : Cfg K V) (s s' : State K V) (b : Nat) (ids : List Na
                       omega) hp3
                     have hc1 : s1.commits = s.commits := by
                       have := writeObjs_commits cfg s parts; rw [hw] at this; exact this
-                    apply Good.commit s s1 g _ _ _ hc1 w.next (written_good cfg s s1 objs parts g w)
+                    obtain ⟨hf, hx⟩ := written_files cfg s s1 objs parts g w
+                    apply Good.commit s s1 g _ _ _ hc1 w.next hf hx
                     rw [e3, e2, e1]
                     intro a ha
                     simp only [Patch.commitActions, Patch.new, List.nil_append, List.map_nil, List.append_nil,
                       List.mem_append, List.mem_map] at ha
                     rcases ha with ((⟨i, _, h⟩ | ⟨o, ho, h⟩) | ⟨v, hv, h⟩)
                     · subst h; trivial
-                    · subst h; exact (w.ids o ho).2
+                    · subst h; exact written_objOk cfg s s1 objs parts w o ho
                     · subst h
                       split at hv
                       · obtain ⟨o, ho, hov⟩ := List.mem_map.mp hv
@@ -360,12 +409,11 @@ theorem addVectors_good (s s' : State K V) (b : Nat) (ids : List Nat) (g : Good 
         · cases h
         · rename_i hchk
           cases h
-          apply Good.commit s s g _ _ _ rfl (Nat.le_refl _) g.files
+          apply Good.commit_self s g
           intro a ha
           obtain ⟨i, hi, hia⟩ := List.mem_map.mp ha
           subst hia
-          -- every id passed the check `snap.hasObj i`
-          have hb := Good.snap s g _ snap hs
+          have hb := Good.snap_lt s g _ snap hs
           have : snap.hasObj i = true := by
             have := checkIds_none _ ids hchk i hi
             cases hh : snap.hasObj i with
@@ -378,10 +426,35 @@ theorem deleteVectors_good (s s' : State K V) (b : Nat) (ids : List Nat) (g : Go
     (h : deleteVectors s b ids = .ok s') : Good s' := by
   unfold deleteVectors at h
   opsplit h
-  apply Good.commit s s g _ _ _ rfl (Nat.le_refl _) g.files
+  apply Good.commit_self s g
   intro a ha
   obtain ⟨i, _, hia⟩ := List.mem_map.mp ha
   subst hia; trivial
+
+omit [DecidableEq V] in
+theorem fileOf_filter_id (files : List (Nat × List V)) (q : Nat → Bool) (id : Nat) :
+    fileOf (files.filter (fun f => q f.1)) id = if q id then fileOf files id else none := by
+  unfold fileOf
+  rw [List.find?_filter]
+  cases hq : q id
+  · have : (fun (a : Nat × List V) => decide (q a.1 = true ∧ (a.1 == id) = true)) = (fun _ => false) := by
+      funext a
+      by_cases ha : a.1 = id
+      · rw [ha, hq]; simp
+      · have : (a.1 == id) = false := by simpa using ha
+        simp [this]
+    rw [this]
+    have : files.find? (fun _ => false) = none := by
+      rw [List.find?_eq_none]; intro x _; simp
+    rw [this]; simp
+  · have : (fun (a : Nat × List V) => decide (q a.1 = true ∧ (a.1 == id) = true)) = (fun a => a.1 == id) := by
+      funext a
+      by_cases ha : a.1 = id
+      · rw [ha, hq]; simp
+      · have : (a.1 == id) = false := by simpa using ha
+        simp [this]
+    rw [this]
+    simp
 
 omit [DecidableEq V] in
 theorem vacuum_good (s s' : State K V) (c : Nat) (g : Good s) (h : vacuum s c = .ok s') : Good s' := by
@@ -389,10 +462,21 @@ theorem vacuum_good (s s' : State K V) (c : Nat) (g : Good s) (h : vacuum s c = 
   have hn : s'.nextObj = s.nextObj := by
     unfold vacuum at h
     split at h <;> first | (cases h; rfl) | cases h
-  refine ⟨?_, by rw [hc, hn]; exact g.acts⟩
-  intro f hfm
-  rw [hf] at hfm
-  rw [hn]; exact g.files f (List.mem_filter.mp hfm).1
+  have hx : FilesExt s.nextObj s.files s'.files := by
+    refine ⟨?_⟩
+    intro id _ p hp
+    rw [hf, fileOf_filter_id s.files (fun i => !ids.contains i)] at hp
+    split at hp
+    · exact hp
+    · cases hp
+  refine ⟨?_, ?_⟩
+  · intro f hfm
+    rw [hf] at hfm
+    rw [hn]; exact g.files f (List.mem_filter.mp hfm).1
+  · intro c' hc'
+    rw [hc] at hc'
+    rw [hn]
+    exact actsOk_ext _ _ _ _ (Nat.le_refl _) hx _ (g.acts c' hc')
 
 omit [DecidableEq V] in
 theorem createBranch_good (s s' : State K V) (n p : Nat) (g : Good s) (h : createBranch s n p = .ok s') : Good s' := by
@@ -400,37 +484,401 @@ theorem createBranch_good (s s' : State K V) (n p : Nat) (g : Good s) (h : creat
   opsplit h
   exact ⟨g.files, g.acts⟩
 
-/-- operations of C14 whose freshness preservation is proved here -/
-def Op.isPlain : Op V → Bool
-  | .load .. | .delete .. | .compact .. | .addVectors .. | .deleteVectors .. | .vacuum .. | .createBranch .. => true
-  | _ => false
+theorem deleteWhere_good (cfg : Cfg K V) (s s' : State K V) (b : Nat) (keep : V → Bool) (parts : List (List V))
+    (g : Good s) (h : deleteWhere cfg s b keep parts = .ok s') : Good s' := by
+  unfold deleteWhere at h
+  split at h
+  · cases h
+  · rename_i t ht
+    cases hs : snapAt s.commits t with
+    | error e => simp [hs] at h
+    | ok snap =>
+    simp only [hs] at h
+    split at h
+    · cases h
+    · split at h
+      · cases h
+      · split at h
+        · cases h
+        · have w := writeObjs_spec cfg s parts g.files
+          cases hw : writeObjs cfg s parts with
+          | mk s1 objs =>
+            rw [hw] at h w
+            simp only [] at h w
+            split at h
+            · cases h
+            · rename_i p1 hp1
+              split at h
+              · cases h
+              · rename_i p2 hp2
+                cases h
+                have e1 := delAll_spec _ p1 _ (by intro id _; simp [Patch.new, Snap.hasObj]) hp1
+                have e2 := addAll_spec _ _ _ hp2
+                have hc1 : s1.commits = s.commits := by
+                  have := writeObjs_commits cfg s parts; rw [hw] at this; exact this
+                obtain ⟨hf, hx⟩ := written_files cfg s s1 objs parts g w
+                apply Good.commit s s1 g _ _ _ hc1 w.next hf hx
+                rw [e2, e1]
+                intro a ha
+                simp only [Patch.commitActions, Patch.new, List.nil_append, List.map_nil, List.append_nil,
+                  List.mem_append, List.mem_map] at ha
+                rcases ha with (⟨i, _, h⟩ | ⟨o, ho, h⟩)
+                · subst h; trivial
+                · subst h; exact written_objOk cfg s s1 objs parts w o ho
 
-theorem step_good (cfg : Cfg K V) (s : State K V) (op : Op V) (hp : op.isPlain = true) (g : Good s) :
-    Good (step cfg s op) := by
+
+/-! ### patches only carry objects that come from commit actions or the base snapshot -/
+
+section patches
+variable {K : Type}
+
+theorem patch_playAction_ok (Q : Obj K → Prop) (p p' : Patch K) (a : Action K)
+    (h : p.playAction a = .ok p') (hd : ∀ o ∈ p.diff.objs, Q o)
+    (ha : ∀ o, a = .add o → Q o) : (∀ o ∈ p'.diff.objs, Q o) ∧ p'.base = p.base := by
+  cases a with
+  | add o =>
+    have := (addObj_diff p p' o h).2.2
+    subst this
+    refine ⟨?_, rfl⟩
+    intro o' ho'
+    simp only [List.mem_append, List.mem_singleton] at ho'
+    rcases ho' with h1 | h1
+    · exact hd o' h1
+    · subst h1; exact ha _ rfl
+  | del x =>
+    simp only [Patch.playAction, Patch.delObj] at h
+    split at h
+    · cases hdl : p.diff.delObj x with
+      | error e => simp [hdl] at h
+      | ok d =>
+        simp only [hdl, Except.ok.injEq] at h
+        subst h
+        rw [(delObj_ok _ _ _ hdl).2]
+        exact ⟨fun o ho => hd o (List.mem_filter.mp ho).1, rfl⟩
+    · split at h
+      · cases h
+      · cases h; exact ⟨hd, rfl⟩
+  | addVec v =>
+    simp only [Patch.playAction, Patch.addVec] at h
+    split at h
+    · cases h
+    · cases hdl : p.diff.addVec v with
+      | error e => simp [hdl] at h
+      | ok d =>
+        simp only [hdl, Except.ok.injEq] at h
+        subst h
+        have : d.objs = p.diff.objs := by
+          simp only [Snap.addVec] at hdl
+          split at hdl <;> first | (cases hdl; rfl) | cases hdl
+        exact ⟨by simpa [this] using hd, rfl⟩
+  | delVec v =>
+    simp only [Patch.playAction, Patch.delVec] at h
+    split at h
+    · cases hdl : p.diff.delVec v with
+      | error e => simp [hdl] at h
+      | ok d =>
+        simp only [hdl, Except.ok.injEq] at h
+        subst h
+        have : d.objs = p.diff.objs := by
+          simp only [Snap.delVec] at hdl
+          split at hdl <;> first | (cases hdl; rfl) | cases hdl
+        exact ⟨by simpa [this] using hd, rfl⟩
+    · split at h
+      · cases h
+      · cases h; exact ⟨hd, rfl⟩
+
+theorem patch_play_ok (Q : Obj K → Prop) (p p' : Patch K) (as : List (Action K))
+    (h : p.play as = .ok p') (hd : ∀ o ∈ p.diff.objs, Q o)
+    (ha : ∀ o, Action.add o ∈ as → Q o) : (∀ o ∈ p'.diff.objs, Q o) ∧ p'.base = p.base := by
+  induction as generalizing p with
+  | nil => simp only [Patch.play, Except.ok.injEq] at h; subst h; exact ⟨hd, rfl⟩
+  | cons a as ih =>
+    simp only [Patch.play] at h
+    cases hpa : p.playAction a with
+    | error e => simp [hpa] at h
+    | ok p1 =>
+      simp only [hpa] at h
+      obtain ⟨h1, h2⟩ := patch_playAction_ok Q p p1 a hpa hd (fun o ho => ha o (by simp [ho]))
+      obtain ⟨h3, h4⟩ := ih p1 h h1 (fun o ho => ha o (by simp [ho]))
+      exact ⟨h3, h4.trans h2⟩
+
+theorem diffAdds_sub (pp pc p p' : Patch K) (dirty d' : Bool) (os : List (Obj K))
+    (h : diffAdds pp pc p dirty os = .ok (p', d')) :
+    (∀ o ∈ p'.diff.objs, o ∈ p.diff.objs ∨ o ∈ os) ∧ p'.diff.vecs = p.diff.vecs ∧ p'.delVecs = p.delVecs := by
+  induction os generalizing p dirty with
+  | nil =>
+    simp only [diffAdds, Except.ok.injEq, Prod.mk.injEq] at h
+    obtain ⟨h1, _⟩ := h
+    subst h1
+    exact ⟨fun o ho => Or.inl ho, rfl, rfl⟩
+  | cons o os ih =>
+    unfold diffAdds at h
+    split at h
+    · split at h
+      · cases h
+      · cases ha : p.addObj o with
+        | error e => simp [ha] at h
+        | ok p1 =>
+          simp only [ha] at h
+          have hp1 := (addObj_diff p p1 o ha).2.2
+          obtain ⟨h1, h2, h3⟩ := ih p1 true h
+          subst hp1
+          refine ⟨?_, h2, h3⟩
+          intro o' ho'
+          rcases h1 o' ho' with h4 | h4
+          · simp only [List.mem_append, List.mem_singleton] at h4
+            rcases h4 with h5 | h5
+            · exact Or.inl h5
+            · exact Or.inr (by simp [h5])
+          · exact Or.inr (by simp [h4])
+    · obtain ⟨h1, h2, h3⟩ := ih p dirty h
+      exact ⟨fun o' ho' => (h1 o' ho').elim Or.inl (fun h4 => Or.inr (by simp [h4])), h2, h3⟩
+
+theorem delObj_sub (p p' : Patch K) (x : Nat) (h : p.delObj x = .ok p') :
+    (∀ o ∈ p'.diff.objs, o ∈ p.diff.objs) ∧ p'.diff.vecs = p.diff.vecs ∧ p'.delVecs = p.delVecs := by
+  simp only [Patch.delObj] at h
+  split at h
+  · cases hdl : p.diff.delObj x with
+    | error e => simp [hdl] at h
+    | ok d =>
+      simp only [hdl, Except.ok.injEq] at h
+      subst h
+      rw [(delObj_ok _ _ _ hdl).2]
+      exact ⟨fun o ho => (List.mem_filter.mp ho).1, rfl, rfl⟩
+  · split at h
+    · cases h
+    · cases h; exact ⟨fun o ho => ho, rfl, rfl⟩
+
+theorem diffDels_sub (pp p p' : Patch K) (dirty d' : Bool) (ids : List Nat)
+    (h : diffDels pp p dirty ids = .ok (p', d')) :
+    (∀ o ∈ p'.diff.objs, o ∈ p.diff.objs) ∧ p'.diff.vecs = p.diff.vecs ∧ p'.delVecs = p.delVecs := by
+  induction ids generalizing p dirty with
+  | nil =>
+    simp only [diffDels, Except.ok.injEq, Prod.mk.injEq] at h
+    obtain ⟨h1, _⟩ := h
+    subst h1
+    exact ⟨fun o ho => ho, rfl, rfl⟩
+  | cons x xs ih =>
+    unfold diffDels at h
+    split at h
+    · cases ha : p.delObj x with
+      | error e => simp [ha] at h
+      | ok p1 =>
+        simp only [ha] at h
+        obtain ⟨a1, a2, a3⟩ := delObj_sub p p1 x ha
+        obtain ⟨h1, h2, h3⟩ := ih p1 true h
+        exact ⟨fun o ho => a1 o (h1 o ho), h2.trans a2, h3.trans a3⟩
+    · cases h
+
+/-- everything `Diff(parent, child)` adds is an object of the child patch (its base or its diff);
+    it carries no vector actions -/
+theorem diff_sub (pp pc d : Patch K) (h : diff pp pc = .ok d) :
+    (∀ o ∈ d.diff.objs, o ∈ pc.selectAll) ∧ d.diff.vecs = [] ∧ d.delVecs = [] := by
+  unfold diff at h
+  cases h1 : diffAdds pp pc (Patch.new pp.toView) false pc.selectAll with
+  | error e => simp [h1] at h
+  | ok r =>
+    obtain ⟨p1, d1⟩ := r
+    simp only [h1] at h
+    cases h2 : diffDels pp p1 d1 pc.delObjs with
+    | error e => simp [h2] at h
+    | ok r2 =>
+      obtain ⟨p2, d2⟩ := r2
+      simp only [h2] at h
+      split at h
+      · cases h
+        obtain ⟨a1, a2, a3⟩ := diffAdds_sub _ _ _ _ _ _ _ h1
+        obtain ⟨b1, b2, b3⟩ := diffDels_sub _ _ _ _ _ _ h2
+        refine ⟨?_, by rw [b2, a2]; rfl, by rw [b3, a3]; rfl⟩
+        intro o ho
+        rcases a1 o (b1 o ho) with h4 | h4
+        · simp [Patch.new] at h4
+        · exact h4
+      · cases h
+
+theorem find_mem (s : Snap K) (id : Nat) (o : Obj K) (h : s.find id = some o) : o ∈ s.objs :=
+  List.mem_of_find?_eq_some h
+
+theorem revertAdds_mem (B : Snap K) (p : Patch K) (hb : p.base = .snap B) (tip : Snap K)
+    (ids : List Nat) (acts : List (Action K)) (h : p.revertAdds tip ids = .ok acts) :
+    ∀ a ∈ acts, ∃ o, a = .add o ∧ o ∈ B.objs := by
+  induction ids generalizing acts with
+  | nil =>
+    simp only [Patch.revertAdds, Except.ok.injEq] at h
+    subst h; intro a ha; cases ha
+  | cons x xs ih =>
+    unfold Patch.revertAdds at h
+    rw [hb] at h
+    cases hl : (View.snap B).lookup x with
+    | none => simp [hl] at h
+    | some o =>
+      simp only [hl] at h
+      have hmem : o ∈ B.objs := find_mem B x o (by simpa [View.lookup] using hl)
+      cases hr : p.revertAdds tip xs with
+      | error e => simp [hr] at h
+      | ok r =>
+        simp only [hr, Except.ok.injEq] at h
+        have := ih r hr
+        subst h
+        intro a ha
+        split at ha
+        · exact this a ha
+        · simp only [List.mem_cons] at ha
+          rcases ha with h1 | h1
+          · exact ⟨o, h1, hmem⟩
+          · exact this a h1
+
+theorem getCommit_mem (cs : List (Commit K)) (c : Nat) (co : Commit K) (h : getCommit cs c = some co) : co ∈ cs := by
+  unfold getCommit at h
+  split at h
+  · cases h
+  · exact List.mem_of_getElem? h
+
+theorem pathActions_mem (cs : List (Commit K)) (ids : List Nat) (a : Action K) (h : a ∈ pathActions cs ids) :
+    ∃ co ∈ cs, a ∈ co.acts := by
+  unfold pathActions at h
+  obtain ⟨c, _, hc⟩ := List.mem_flatMap.mp h
+  cases hg : getCommit cs c with
+  | none => simp [hg] at hc
+  | some co => simp only [hg] at hc; exact ⟨co, getCommit_mem cs c co hg, hc⟩
+
+end patches
+
+omit [DecidableEq V] in
+theorem patchOfPath_ok (s : State K V) (g : Good s) (base : Snap K) (hbase : SnapOk s.nextObj s.files base)
+    (baseID commit : Nat) (p : Patch K) (h : patchOfPath s.commits base baseID commit = .ok p) :
+    (∀ o ∈ p.diff.objs, ObjOk s.nextObj s.files o) ∧ p.base = .snap base := by
+  unfold patchOfPath at h
+  simp only [] at h
+  have := patch_play_ok (ObjOk s.nextObj s.files) _ p _ h (by simp [Patch.new]) (by
+    intro o ho
+    obtain ⟨co, hco, hmem⟩ := pathActions_mem _ _ _ ho
+    exact g.acts co hco _ hmem)
+  exact ⟨this.1, this.2⟩
+
+omit [DecidableEq V] in
+theorem merge_good (s s' : State K V) (c p : Nat) (g : Good s) (h : merge s c p = .ok s') : Good s' := by
+  unfold merge at h
+  split at h
+  · rename_i ctip ptip _ _
+    cases hm : mergeActions s.commits ctip ptip with
+    | error e => simp [hm] at h
+    | ok acts =>
+      simp only [hm, Except.ok.injEq] at h
+      subst h
+      apply Good.commit_self s g
+      unfold mergeActions at hm
+      split at hm
+      · cases hm
+      · simp only [] at hm
+        split at hm
+        · cases hm
+        · cases hb : snapAt s.commits (commonAncestor (pathAt s.commits ptip) (pathAt s.commits ctip)) with
+          | error e => simp [hb] at hm
+          | ok base =>
+            simp only [hb] at hm
+            have hbase := Good.snap s g _ base hb
+            cases hc : patchOfPath s.commits base (commonAncestor (pathAt s.commits ptip) (pathAt s.commits ctip)) ctip with
+            | error e => simp [hc] at hm
+            | ok pc =>
+              simp only [hc] at hm
+              cases hp : patchOfPath s.commits base (commonAncestor (pathAt s.commits ptip) (pathAt s.commits ctip)) ptip with
+              | error e => simp [hp] at hm
+              | ok pp =>
+                simp only [hp] at hm
+                cases hd : diff pp pc with
+                | error e => simp [hd] at hm
+                | ok d =>
+                  simp only [hd, Except.ok.injEq] at hm
+                  subst hm
+                  obtain ⟨c1, c2⟩ := patchOfPath_ok s g base hbase _ _ pc hc
+                  obtain ⟨d1, d2, d3⟩ := diff_sub pp pc d hd
+                  intro a ha
+                  simp only [Patch.commitActions, d2, d3, List.map_nil, List.append_nil, List.mem_append,
+                    List.mem_map] at ha
+                  rcases ha with (⟨i, _, h1⟩ | ⟨o, ho, h1⟩)
+                  · subst h1; trivial
+                  · subst h1
+                    have := d1 o ho
+                    simp only [Patch.selectAll, Patch.toView, View.selectAll, c2, List.mem_append] at this
+                    rcases this with h2 | h2
+                    · exact hbase.1 o h2
+                    · exact c1 o h2
+  · cases h
+
+omit [DecidableEq V] in
+theorem revert_good (s s' : State K V) (b c : Nat) (g : Good s) (h : revert s b c = .ok s') : Good s' := by
+  unfold revert at h
+  split at h
+  · cases h
+  · rename_i t _
+    cases hp : patchOfCommit s.commits c with
+    | error e => simp [hp] at h
+    | ok patch =>
+      simp only [hp] at h
+      cases hs : snapAt s.commits t with
+      | error e => simp [hs] at h
+      | ok tipSnap =>
+        simp only [hs] at h
+        cases hr : patch.revert tipSnap with
+        | error e => simp [hr] at h
+        | ok acts =>
+          simp only [hr, Except.ok.injEq] at h
+          subst h
+          apply Good.commit_self s g
+          -- the patch of commit `c` sits over the snapshot of its parent
+          unfold patchOfCommit at hp
+          cases hg : getCommit s.commits c with
+          | none => simp [hg] at hp
+          | some co =>
+            simp only [hg] at hp
+            cases hb : snapAt s.commits co.parent with
+            | error e => simp [hb] at hp
+            | ok base =>
+              simp only [hb] at hp
+              have hbase := Good.snap s g _ base hb
+              have hpb := (patch_play_ok (fun _ => True) _ patch _ hp (by simp) (by simp)).2
+              unfold Patch.revert at hr
+              simp only [] at hr
+              cases hra : patch.revertAdds tipSnap patch.delObjs with
+              | error e => simp [hra] at hr
+              | ok adds =>
+                simp only [hra] at hr
+                split at hr
+                · cases hr
+                · cases hr
+                  intro a ha
+                  simp only [List.mem_append, List.mem_map] at ha
+                  rcases ha with (⟨o, _, h1⟩ | h1)
+                  · subst h1; trivial
+                  · obtain ⟨o, ho, hmem⟩ := revertAdds_mem base patch hpb tipSnap _ adds hra a h1
+                    subst ho
+                    exact hbase.1 o hmem
+
+/-- **the invariant is preserved by every operation** -/
+theorem step_good (cfg : Cfg K V) (s : State K V) (op : Op V) (g : Good s) : Good (step cfg s op) := by
   unfold step
   split
   · rename_i s' ha
     cases op with
     | load b vals parts => exact load_good cfg s s' b vals parts g ha
     | delete b ids => exact delete_good s s' b ids g ha
+    | deleteWhere b k parts => exact deleteWhere_good cfg s s' b k parts g ha
     | compact b ids vec parts => exact compact_good cfg s s' b ids vec parts g ha
     | addVectors b ids => exact addVectors_good s s' b ids g ha
     | deleteVectors b ids => exact deleteVectors_good s s' b ids g ha
     | vacuum c => exact vacuum_good s s' c g ha
     | createBranch n p => exact createBranch_good s s' n p g ha
-    | deleteWhere b k parts => simp [Op.isPlain] at hp
-    | merge c p => simp [Op.isPlain] at hp
-    | revert b c => simp [Op.isPlain] at hp
+    | merge c p => exact merge_good s s' c p g ha
+    | revert b c => exact revert_good s s' b c g ha
   · exact g
 
-/-- for every history of these operations, of any length, from the empty pool, the freshness
-    hypotheses of the refinement theorems hold -/
-theorem run_good (cfg : Cfg K V) (s : State K V) (ops : List (Op V)) (hp : ops.all Op.isPlain = true)
-    (g : Good s) : Good (run cfg s ops) := by
+/-- for every history, of any operations and any length, the invariant holds -/
+theorem run_good (cfg : Cfg K V) (s : State K V) (ops : List (Op V)) (g : Good s) : Good (run cfg s ops) := by
   induction ops generalizing s with
   | nil => exact g
   | cons op ops ih =>
-    simp only [List.all_cons, Bool.and_eq_true] at hp
     simp only [run, List.foldl_cons]
-    exact ih (step cfg s op) hp.2 (step_good cfg s op hp.1 g)
+    exact ih (step cfg s op) (step_good cfg s op g)
+
 end Zed.Lake
